@@ -101,7 +101,7 @@ pub fn worker(scn: &dyn Scenario, tier: Tier, seed: u64, w: u64, nw: u64, total:
         }
         let (spec, r, dg) = one_run(scn, tier, seed, idx, &mut st);
         out.runs += 1;
-        if all_digests || idx % DIGEST_STRIDE == 0 {
+        if all_digests || (idx % DIGEST_STRIDE == 0 && out.digests.len() < 4000) {
             out.digests.push((idx, dg));
         }
         if out.samples.len() < 1 && idx % 7 == 3 {
